@@ -999,23 +999,23 @@ theorem dijkstra_none_iff_unreachable (g : Graph) (s t : Nat) (hnn : NonNeg g)
 
 /-! ### the hypotheses are satisfiable: a weighted triangle with a cheaper two-hop route -/
 
-def exGraph : Graph :=
+def dijExGraph : Graph :=
   { nodes := [⟨0, none⟩, ⟨1, none⟩, ⟨2, none⟩, ⟨3, none⟩]
     edges := [⟨10, 0, 2, true, 0, some 5, none⟩, ⟨11, 0, 1, true, 0, some 2, none⟩,
               ⟨12, 2, 1, false, 0, none, none⟩] }
 
-theorem exGraph_nonneg : NonNeg exGraph := by
+theorem dijExGraph_nonneg : NonNeg dijExGraph := by
   intro e he
-  simp only [exGraph, List.mem_cons, List.not_mem_nil, or_false] at he
+  simp only [dijExGraph, List.mem_cons, List.not_mem_nil, or_false] at he
   rcases he with rfl | rfl | rfl <;> decide
 
-example : NonNeg exGraph ∧
-    findWeightedPath exGraph 0 2 = .ok { nodes := [0, 1, 2], edges := [11, 12], total := 3 } :=
-  ⟨exGraph_nonneg, by rfl⟩
+example : NonNeg dijExGraph ∧
+    findWeightedPath dijExGraph 0 2 = .ok { nodes := [0, 1, 2], edges := [11, 12], total := 3 } :=
+  ⟨dijExGraph_nonneg, by rfl⟩
 
-example : NonNeg exGraph ∧ exGraph.hasNode 0 = true ∧ exGraph.hasNode 3 = true ∧
-    findWeightedPath exGraph 0 3 = .error .pathNotFound :=
-  ⟨exGraph_nonneg, by rfl, by rfl, by rfl⟩
+example : NonNeg dijExGraph ∧ dijExGraph.hasNode 0 = true ∧ dijExGraph.hasNode 3 = true ∧
+    findWeightedPath dijExGraph 0 3 = .error .pathNotFound :=
+  ⟨dijExGraph_nonneg, by rfl, by rfl, by rfl⟩
 
 example : findWeightedPath
     { nodes := [⟨0, none⟩, ⟨1, none⟩], edges := [⟨7, 0, 1, true, 0, some (-4), none⟩] } 0 1 =
